@@ -172,7 +172,7 @@ type LitRoot struct {
 
 // NewWalker creates a walker with the default inlining policy: same package, depth <= 4.
 func NewWalker(p *Prog) *Walker {
-	return &Walker{P: p, MaxDepth: 4, MaxPaths: 400000, Unsupported: map[string]string{}, seenLit: map[*ast.FuncLit]bool{},
+	return &Walker{P: p, MaxDepth: 4, MaxPaths: 12000, Unsupported: map[string]string{}, seenLit: map[*ast.FuncLit]bool{},
 		Inline: func(caller, callee *FuncInfo) bool { return caller.Pkg == callee.Pkg }}
 }
 
@@ -196,8 +196,12 @@ func (w *Walker) EnumerateFunc(fn *FuncInfo) ([]*Path, error) {
 	c.ret = func(s *pstate, res []string) { w.finish(s, fn, res, fn.Decl.End()) }
 	w.stmts(fn.Decl.Body.List, st, c, func(s *pstate) { w.finish(s, fn, w.namedVals(c, s), fn.Decl.End()) })
 	if w.overflow {
+		w.overflow = false
+		w.paths = nil
+		w.npaths = 0
 		return nil, fmt.Errorf("path budget exceeded in %s", fn.Name())
 	}
+	w.npaths = 0
 	return w.paths, nil
 }
 
@@ -216,8 +220,12 @@ func (w *Walker) EnumerateLit(lr *LitRoot) ([]*Path, error) {
 	c.ret = func(s *pstate, res []string) { w.finish(s, lr.Owner, res, lr.Lit.End()) }
 	w.stmts(lr.Lit.Body.List, st, c, func(s *pstate) { w.finish(s, lr.Owner, w.namedVals(c, s), lr.Lit.End()) })
 	if w.overflow {
+		w.overflow = false
+		w.paths = nil
+		w.npaths = 0
 		return nil, fmt.Errorf("path budget exceeded in literal of %s", lr.Owner.Name())
 	}
+	w.npaths = 0
 	return w.paths, nil
 }
 
@@ -1532,6 +1540,10 @@ func (w *Walker) call(call *ast.CallExpr, st *pstate, c *ctl, k func(*pstate, []
 			ev.Def = ev.Canon
 			ev.Canon = w.P.Sym(ev.Canon)
 		}
+		if ev.CalleeName == "make" || ev.CalleeName == "new" {
+			st.count["alloc"]++
+			ev.Canon = fmt.Sprintf("%s@%d", ev.Canon, st.count["alloc"])
+		}
 		st = w.emit(st, ev)
 		if fl, ok := ast.Unparen(call.Fun).(*ast.FuncLit); ok {
 			w.noteLit(fl, c.fn, false)
@@ -1761,6 +1773,10 @@ func (w *Walker) canon(e ast.Expr, st *pstate, c *ctl) string {
 			v := w.varCanon(o, st)
 			if strings.HasPrefix(v, "?") || strings.HasPrefix(v, "^") {
 				return v
+			}
+			if n := st.ver[stripVersion(v)]; n > 0 && !strings.Contains(v, "#") {
+				// the collection this variable names was written through an index expression
+				return fmt.Sprintf("%s#%d", v, n)
 			}
 			return v
 		case *types.Func:
